@@ -46,11 +46,27 @@ def build_kwargs(cfg, env):
             kw[k] = cfg[k]
     if cfg.get("serde") is not None:
         kw["serde"] = c04.make_serde(cfg["serde"])
+    if cfg.get("legacy"):
+        # the deprecated function arguments, alone or together
+        if cfg["legacy"] in ("both", "serializer"):
+            kw["serializer"] = _legacy_ser
+        if cfg["legacy"] in ("both", "deserializer"):
+            kw["deserializer"] = _legacy_deser
     if cfg.get("keepalive"):
         kw["socket_keepalive"] = KeepaliveOpts(*cfg["keepalive"])
     if cfg.get("tls"):
         kw["tls_context"] = env.tls()
     return kw
+
+
+def _legacy_ser(key, value):
+    if isinstance(value, bytes):
+        return value, 0
+    return ("L:" + str(value)).encode("utf-8"), 9
+
+
+def _legacy_deser(key, value, flags):
+    return ("deser", flags, value)
 
 
 def preload(env, cfg, state):
@@ -71,6 +87,8 @@ def preload(env, cfg, state):
 
 
 def run_stack(stack, cfg, state, r):
+    if cfg.get("serde") is not None and cfg.get("legacy"):
+        cfg = {k: v for k, v in cfg.items() if k != "legacy"}
     env = Env()
     kw = build_kwargs(cfg, env)
     if stack in ("client", "retry1", "retry3"):
@@ -97,6 +115,8 @@ def run_stack(stack, cfg, state, r):
 
 def run_sequence(stack, cfg, state, seq):
     """several calls on ONE stack object: -> [(result, commands the server parsed during this call)], env"""
+    if cfg.get("serde") is not None and cfg.get("legacy"):
+        cfg = {k: v for k, v in cfg.items() if k != "legacy"}
     env = Env()
     kw = build_kwargs(cfg, env)
     if stack in ("client", "retry1"):
@@ -248,6 +268,7 @@ CALLS = [
 CFGS = [
     {}, {"key_prefix": b"p:"}, {"key_prefix": "p:"}, {"default_noreply": False}, {"encoding": "utf-8"}, {"encoding": "latin-1"},
     {"allow_unicode_keys": True}, {"serde": ("pickle", 2)}, {"serde": ("compressed", 1)}, {"serde": ("json",)},
+    {"legacy": "both"}, {"legacy": "serializer"}, {"legacy": "deserializer"}, {"legacy": "deserializer", "key_prefix": b"p:"},
     {"connect_timeout": 1.5, "timeout": 2.5}, {"timeout": 0.5}, {"no_delay": True}, {"keepalive": [2, 3, 4]}, {"tls": True},
     {"key_prefix": "ns/", "default_noreply": False, "encoding": "utf-8", "allow_unicode_keys": True, "serde": ("pickle", 0),
      "connect_timeout": 3, "timeout": 0.5, "no_delay": True, "keepalive": [1, 1, 5], "tls": True},
@@ -268,6 +289,7 @@ def random_strategy(tier):
         "encoding": st.sampled_from(["ascii", "utf-8", "latin-1"]),
         "allow_unicode_keys": st.booleans(),
         "serde": st.sampled_from([None, ("pickle", 0), ("pickle", 5), ("compressed", 1), ("compressed-default",), ("json",)]),
+        "legacy": st.sampled_from([None, None, "both", "serializer", "deserializer"]),
         "connect_timeout": st.sampled_from([None, 0.5, 3]),
         "timeout": st.sampled_from([None, 0.5, 3]),
         "no_delay": st.booleans(),
